@@ -118,9 +118,13 @@ class DilutionPlan:
             for src_c in range(0, len(instructions)):
                 _, src_df, _, _ = instructions[src_c]
                 vtransfer = numpy.ceil(vmax_arr[c] * ideal_targets[:, c] / actual_targets[src_c])
-                # take the leftmost column (least dilution steps) where the minimal transfer volume is exceeded
-                # and that still holds enough volume for this transfer
-                if all(vtransfer >= min_transfer) and all(drawn[src_c] + vtransfer <= vmax_arr[src_c]):
+                # take the leftmost column (least dilution steps) where the minimal transfer volume is exceeded,
+                # the transfer fits into the target column, and the source still holds enough volume for it
+                if (
+                    all(vtransfer >= min_transfer)
+                    and all(vtransfer <= vmax_arr[c])
+                    and all(drawn[src_c] + vtransfer <= vmax_arr[src_c])
+                ):
                     drawn[src_c] = drawn[src_c] + vtransfer
                     instructions.append(
                         # increment the dilution step counter
